@@ -842,6 +842,9 @@ class Channel(ClosingContextManager):
         """
         while s:
             sent = self.send(s)
+            if sent == 0:
+                # send() made no progress: the stream is closed for writing
+                raise socket.error("Socket is closed")
             s = s[sent:]
         return None
 
@@ -863,6 +866,9 @@ class Channel(ClosingContextManager):
         """
         while s:
             sent = self.send_stderr(s)
+            if sent == 0:
+                # send_stderr() made no progress: closed for writing
+                raise socket.error("Socket is closed")
             s = s[sent:]
         return None
 
